@@ -3,7 +3,9 @@
 meta.json what *I* ran to confirm it (suite result from the confirm log)."""
 import json, os, shutil, sys, re
 prop, log = sys.argv[1], sys.argv[2]
-src = "/tmp/mut/%s/_seeded" % prop
+base = sys.argv[3] if len(sys.argv) > 3 else "/tmp/mut"
+offset = int(sys.argv[4]) if len(sys.argv) > 4 else 0
+src = "%s/%s/_seeded" % (base, prop)
 conf = open(log).read()
 for k in (1, 2):
     p = os.path.join(src, "patch%d.diff" % k)
@@ -13,7 +15,7 @@ for k in (1, 2):
     if not m or m.group(2) != "0" or m.group(3) != "0":
         print(prop, k, "NOT CONFIRMED", m.groups() if m else None)
         continue
-    d = "/verif/seeded/%s-%d" % (prop, k)
+    d = "/verif/seeded/%s-%d" % (prop, k + offset)
     shutil.rmtree(d, ignore_errors=True)
     os.makedirs(d)
     shutil.copy(p, os.path.join(d, "patch.diff"))
@@ -30,7 +32,8 @@ for k in (1, 2):
     meta["author"] = "fresh sub-agent given only the property text and a scratch worktree"
     meta["confirmed_by_me"] = {
         "suite": "in the scratch worktree, patch applied alone: cargo test --workspace --no-fail-fast --offline -> passed=%s failed=%s rc=%s" % m.groups(),
-        "base_commit": os.popen("git -C /tmp/mut/%s rev-parse --short HEAD" % prop).read().strip(),
+        "base_commit": os.popen("git -C %s/%s rev-parse --short HEAD" % (base, prop)).read().strip(),
+        "round": 2 if offset else 1,
     }
     json.dump(meta, open(os.path.join(d, "meta.json"), "w"), indent=1)
     print("imported", d)
